@@ -237,6 +237,12 @@ def analyse_run(sc, rm: RM, r, want=None, want_lazy_probe=True):
                 {"kind": "lost_run_did_not_return",
                  "features": {"how": died, "incomparable": "incomparable" in msg},
                  "detail": {"outcome": list(oc), "first_lost": [lost[0], list(lost[1])]}})
+    if r.world_info.get("debug_left_enabled"):
+        # run() has returned or raised, but mosaik's process-wide debug hooks are still installed: the
+        # next World of this process - a perfectly valid one - dies in its first step
+        viols.setdefault("C05", []).append(
+            {"kind": "debug_hooks_left_installed", "features": {"run_outcome": oc[0]},
+             "detail": {"outcome": list(oc)[:3]}})
     if any(v[0] != "ok" for v in r.connects):
         bump("connect_rejected_by_mosaik")         # C11's matter
     # ---- oracle violations
